@@ -62,8 +62,9 @@ where
     let q = uni_poly::<E::ScalarField>(shape_q, below(rng, top + 1), rng);
     let (a, b) = (scalar::<E::ScalarField>(rng), scalar::<E::ScalarField>(rng));
     let r = lin(a, &p, b, &q);
-    let hiding = if cfg.supported_hiding >= 1 && rng.next_u32() % 2 == 0 {
-        Some(range(rng, 1, cfg.supported_hiding.min(bound.unwrap_or(usize::MAX)).max(1)))
+    // hiding_bound in [1, min(bound, supported hiding)]: a degree bound of zero admits no hiding
+    let hiding = if cfg.supported_hiding.min(bound.unwrap_or(usize::MAX)) >= 1 && rng.next_u32() % 2 == 0 {
+        Some(range(rng, 1, cfg.supported_hiding.min(bound.unwrap_or(usize::MAX))))
     } else {
         None
     };
